@@ -431,6 +431,7 @@ def run(ctx):
 
 
 META = {
+    "ready": True,
     "category": "proof",
     "technique": "Rocq proof over a transition-system model of the coalescer + atomic-step trace replay of the real coalescer through the model + id-accounting oracle under real-goroutine stress",
     "text": "Conservation, per-caller FIFO and at-most-once are proved for every interleaving of any number of callers with the writer goroutine and close, and every transport fault sequence; `accounted` is proved for the shutdown code that drains until empty under the submit lock and refuted (two witnesses, replayed on the real code) for the code that ran one drainReady without a lock.",
